@@ -537,7 +537,9 @@ impl ExecutionEngine {
                 if function_name == "CONCAT" {
                     // Decode all needed values first
                     let dict = database.dictionary.read().unwrap();
-                    let decoded_values: Vec<Vec<String>> = input_results
+                    // `None` = an argument variable is unbound in this row: the
+                    // expression is an error and the target stays unbound (Extend).
+                    let decoded_values: Vec<Option<Vec<String>>> = input_results
                         .iter()
                         .map(|row| {
                             arguments
@@ -545,13 +547,10 @@ impl ExecutionEngine {
                                 .map(|arg| {
                                     let arg_stripped = Self::normalize_variable(arg);
                                     if Self::is_variable(arg) {
-                                        if let Some(&id) = row.get(arg_stripped) {
-                                            dict.decode(id).unwrap_or("").to_string()
-                                        } else {
-                                            String::new()
-                                        }
+                                        row.get(arg_stripped)
+                                            .map(|&id| dict.decode(id).unwrap_or("").to_string())
                                     } else {
-                                        arg.trim_matches('"').to_string()
+                                        Some(arg.trim_matches('"').to_string())
                                     }
                                 })
                                 .collect()
@@ -561,14 +560,28 @@ impl ExecutionEngine {
 
                     // Now encode the concatenated results
                     let mut dict_write = database.dictionary.write().unwrap();
-                    for (row, decoded_row) in input_results.iter_mut().zip(decoded_values.iter()) {
+                    let mut extended = Vec::with_capacity(input_results.len());
+                    for (mut row, decoded_row) in input_results.into_iter().zip(decoded_values) {
+                        let Some(decoded_row) = decoded_row else {
+                            extended.push(row);
+                            continue;
+                        };
                         let concatenated = decoded_row.join("");
                         let result_id = dict_write.encode(&concatenated);
-                        row.insert(output_var.to_string(), result_id);
+                        // A row fed in by a bind join can already carry the target
+                        // (bound by a sibling group pattern). The groups are joined,
+                        // so the row survives only if both values agree.
+                        match row.get(output_var) {
+                            Some(&existing) if existing != result_id => {}
+                            _ => {
+                                row.insert(output_var.to_string(), result_id);
+                                extended.push(row);
+                            }
+                        }
                     }
                     drop(dict_write);
 
-                    input_results
+                    extended
                 } else if let Some(func) = database.udfs.get(function_name.as_str()) {
                     // Similar fix for UDF
                     let dict = database.dictionary.read().unwrap();
